@@ -21,3 +21,37 @@ pub use label::{Label, LabelError};
 pub use subtypes::{Opcode, RCode};
 
 pub const MAXIMUM_DNS_PACKET_SIZE: usize = 65536;
+
+/// Verification hook: thread-local counter of the octets examined by the decoder.
+#[cfg(dns_message_parser_verif)]
+pub mod verif {
+    use std::cell::Cell;
+
+    thread_local! {
+        static OCTETS: Cell<u64> = const { Cell::new(0) };
+        static BUDGET: Cell<u64> = const { Cell::new(u64::MAX) };
+    }
+
+    /// Reset the counter and arm the budget (`u64::MAX` means no budget).
+    pub fn reset(budget: u64) {
+        OCTETS.with(|o| o.set(0));
+        BUDGET.with(|b| b.set(budget));
+    }
+
+    /// Number of octets examined since the last `reset`.
+    pub fn octets() -> u64 {
+        OCTETS.with(|o| o.get())
+    }
+
+    pub(crate) fn count(n: usize) {
+        let total = OCTETS.with(|o| {
+            let total = o.get().saturating_add(n as u64);
+            o.set(total);
+            total
+        });
+        let budget = BUDGET.with(|b| b.get());
+        if total > budget {
+            panic!("verif: octet budget exceeded: {} > {}", total, budget);
+        }
+    }
+}
